@@ -8,15 +8,24 @@ namespace Cacache
 
 variable {R M : Type}
 
-/-- The laws the concrete record codec has to satisfy (proved for the serde/SHA-256 codec in
-`Lemmas/Record.lean`); all index theorems depend on the codec only through these. -/
-structure Codec.Laws (c : Codec R M) : Prop where
-  dec_enc : ∀ r, c.dec (c.enc r) = some r
-  enc_no_nl : ∀ r, NL ∉ c.enc r
-  enc_valid : ∀ r, c.valid (c.enc r) = true
-  enc_ne_nil : ∀ r, c.enc r ≠ []
-  enc_no_cr_end : ∀ r, (c.enc r).getLast? ≠ some CR
+/-- The laws the record codec has to satisfy **for the records in `W`** — for the concrete
+serde/SHA-256 codec they are *proved* in `Lemmas/Record.lean` with `W = Rec.WF` (what Rust's types
+guarantee about a record the library builds, plus JSON nesting below serde_json's limit: the excluded
+point is known finding F9).  All index theorems depend on the codec only through these. -/
+structure Codec.Laws (c : Codec R M) (W : R → Prop) : Prop where
+  dec_enc : ∀ r, W r → c.dec (c.enc r) = some r
+  enc_no_nl : ∀ r, W r → NL ∉ c.enc r
+  enc_valid : ∀ r, W r → c.valid (c.enc r) = true
+  enc_ne_nil : ∀ r, W r → c.enc r ≠ []
+  enc_no_cr_end : ∀ r, W r → (c.enc r).getLast? ≠ some CR
   dec_nil : c.dec [] = none
+
+/-- Laws about partial records, on top of `Codec.Laws`: a strict prefix of an encoded record does
+not decode (for the concrete codec: no tab yet, or a cut JSON object — proved in
+`Lemmas/Record.lean` for every hash function), and an encoded record holds no carriage return. -/
+structure Codec.TornLaws (c : Codec R M) (W : R → Prop) : Prop extends c.Laws W where
+  prefix_none : ∀ r, W r → ∀ p, p <+: c.enc r → p ≠ c.enc r → c.dec p = none
+  enc_no_cr : ∀ r, W r → CR ∉ c.enc r
 
 /-- Records of a byte string all of whose segments are (or have become) newline-terminated. -/
 def Codec.entriesT (c : Codec R M) (b : Bytes) : List R :=
@@ -41,29 +50,31 @@ theorem stripCR_of_no_cr (s : Bytes) (h : s.getLast? ≠ some CR) : stripCR s = 
     have : c ≠ CR := fun e => h (by rw [hs, e])
     simp [this]
 
-theorem Codec.Laws.entries_enc {c : Codec R M} (L : c.Laws) (r : R) :
+variable {W : R → Prop}
+
+theorem Codec.Laws.entries_enc {c : Codec R M} (L : c.Laws W) (r : R) (hr : W r) :
     c.entries (c.enc r) = [r] := by
   unfold Codec.entries
-  rw [lines_no_nl _ _ (L.enc_no_nl r)]
-  simp [lineU, L.enc_ne_nil, L.enc_valid, Codec.decLine, L.dec_enc]
+  rw [lines_no_nl _ _ (L.enc_no_nl r hr)]
+  simp [lineU, L.enc_ne_nil r hr, L.enc_valid r hr, Codec.decLine, L.dec_enc r hr]
 
-theorem Codec.Laws.entriesT_enc {c : Codec R M} (L : c.Laws) (r : R) :
+theorem Codec.Laws.entriesT_enc {c : Codec R M} (L : c.Laws W) (r : R) (hr : W r) :
     c.entriesT (c.enc r) = [r] := by
   unfold Codec.entriesT
-  rw [splitNL_no_nl _ (L.enc_no_nl r)]
-  simp [linesT, lineT, L.enc_valid, Codec.decLine, stripCR_of_no_cr _ (L.enc_no_cr_end r),
-    L.dec_enc]
+  rw [splitNL_no_nl _ (L.enc_no_nl r hr)]
+  simp [linesT, lineT, L.enc_valid r hr, Codec.decLine, stripCR_of_no_cr _ (L.enc_no_cr_end r hr),
+    L.dec_enc r hr]
 
 /-- Appending one framed record adds exactly that record, whatever the file held before. -/
-theorem Codec.Laws.entries_append_frame {c : Codec R M} (L : c.Laws) (b : Bytes) (r : R) :
+theorem Codec.Laws.entries_append_frame {c : Codec R M} (L : c.Laws W) (b : Bytes) (r : R) (hr : W r) :
     c.entries (b ++ c.frame r) = c.entriesT b ++ [r] := by
   unfold Codec.frame
-  rw [c.entries_append_nl, L.entries_enc]
+  rw [c.entries_append_nl, L.entries_enc r hr]
 
-theorem Codec.Laws.entriesT_append_frame {c : Codec R M} (L : c.Laws) (b : Bytes) (r : R) :
+theorem Codec.Laws.entriesT_append_frame {c : Codec R M} (L : c.Laws W) (b : Bytes) (r : R) (hr : W r) :
     c.entriesT (b ++ c.frame r) = c.entriesT b ++ [r] := by
   unfold Codec.frame
-  rw [c.entriesT_append_nl, L.entriesT_enc]
+  rw [c.entriesT_append_nl, L.entriesT_enc r hr]
 
 /-- The file after a history of appends. -/
 def Codec.appendAll (c : Codec R M) (b : Bytes) : List R → Bytes
@@ -76,44 +87,49 @@ theorem Codec.appendAll_append (c : Codec R M) (b : Bytes) (rs ss : List R) :
   | nil => rfl
   | cons r rs ih => simp [Codec.appendAll, ih]
 
-theorem Codec.Laws.entriesT_appendAll {c : Codec R M} (L : c.Laws) (b : Bytes) (rs : List R) :
-    c.entriesT (c.appendAll b rs) = c.entriesT b ++ rs := by
+theorem Codec.Laws.entriesT_appendAll {c : Codec R M} (L : c.Laws W) (b : Bytes) (rs : List R)
+    (hW : ∀ r ∈ rs, W r) : c.entriesT (c.appendAll b rs) = c.entriesT b ++ rs := by
   induction rs generalizing b with
   | nil => simp [Codec.appendAll]
-  | cons r rs ih => simp [Codec.appendAll, ih, L.entriesT_append_frame]
+  | cons r rs ih =>
+    simp [Codec.appendAll, ih _ (fun x hx => hW x (List.mem_cons_of_mem _ hx)),
+      L.entriesT_append_frame _ r (hW r (by simp))]
 
 /-- After at least one append, what a reader sees is the old records (with the old tail now
 terminated) followed by exactly the appended records, in order. -/
-theorem Codec.Laws.entries_appendAll {c : Codec R M} (L : c.Laws) (b : Bytes) (rs : List R)
-    (r : R) : c.entries (c.appendAll b (rs ++ [r])) = c.entriesT b ++ rs ++ [r] := by
+theorem Codec.Laws.entries_appendAll {c : Codec R M} (L : c.Laws W) (b : Bytes) (rs : List R)
+    (r : R) (hW : ∀ x ∈ rs, W x) (hr : W r) :
+    c.entries (c.appendAll b (rs ++ [r])) = c.entriesT b ++ rs ++ [r] := by
   rw [c.appendAll_append]
   simp only [Codec.appendAll]
-  rw [L.entries_append_frame, L.entriesT_appendAll]
+  rw [L.entries_append_frame _ r hr, L.entriesT_appendAll _ _ hW]
 
-theorem Codec.Laws.entries_appendAll_ne_nil {c : Codec R M} (L : c.Laws) (b : Bytes) (rs : List R)
-    (h : rs ≠ []) : c.entries (c.appendAll b rs) = c.entriesT b ++ rs := by
+theorem Codec.Laws.entries_appendAll_ne_nil {c : Codec R M} (L : c.Laws W) (b : Bytes) (rs : List R)
+    (hW : ∀ x ∈ rs, W x) (h : rs ≠ []) : c.entries (c.appendAll b rs) = c.entriesT b ++ rs := by
   have hl := (List.dropLast_concat_getLast h).symm
-  rw [hl, L.entries_appendAll, List.append_assoc]
+  have h1 : ∀ x ∈ rs.dropLast, W x := fun x hx => hW x (by rw [hl]; simp [hx])
+  rw [hl, L.entries_appendAll _ _ _ h1 (hW _ (List.getLast_mem h)), List.append_assoc]
 
 /-- A file is *settled* when reading it as it is equals reading it once more bytes follow a
 newline: true of the empty file and of every file that ends in a framed record. -/
 def Codec.Settled (c : Codec R M) (b : Bytes) : Prop := c.entries b = c.entriesT b
 
-theorem Codec.Laws.settled_nil {c : Codec R M} (L : c.Laws) : c.Settled [] := by
+theorem Codec.Laws.settled_nil {c : Codec R M} (L : c.Laws W) : c.Settled [] := by
   unfold Codec.Settled Codec.entries Codec.entriesT
   simp [lines, splitNL, linesOfSegs, lineU, linesT, lineT, stripCR, Codec.decLine]
   cases c.valid [] <;> simp [L.dec_nil]
 
-theorem Codec.Laws.settled_frame {c : Codec R M} (L : c.Laws) (b : Bytes) (r : R) :
+theorem Codec.Laws.settled_frame {c : Codec R M} (L : c.Laws W) (b : Bytes) (r : R) (hr : W r) :
     c.Settled (b ++ c.frame r) := by
   unfold Codec.Settled
-  rw [L.entries_append_frame, L.entriesT_append_frame]
+  rw [L.entries_append_frame _ r hr, L.entriesT_append_frame _ r hr]
 
-theorem Codec.Laws.settled_appendAll {c : Codec R M} (L : c.Laws) (b : Bytes) (rs : List R)
-    (hb : c.Settled b) : c.Settled (c.appendAll b rs) := by
+theorem Codec.Laws.settled_appendAll {c : Codec R M} (L : c.Laws W) (b : Bytes) (rs : List R)
+    (hW : ∀ x ∈ rs, W x) (hb : c.Settled b) : c.Settled (c.appendAll b rs) := by
   induction rs generalizing b with
   | nil => exact hb
-  | cons r rs ih => exact ih _ (L.settled_frame b r)
+  | cons r rs ih =>
+    exact ih _ (fun x hx => hW x (List.mem_cons_of_mem _ hx)) (L.settled_frame b r (hW r (by simp)))
 
 /-! ### lookup -/
 
